@@ -1602,6 +1602,41 @@ def rule_r20(prog, res):
                     'validator and the dict documents refuse them')
 
 
+def rule_r21(prog, res):
+    res.rule('R21', 'text that reaches a Unicode member of a dict document '
+             'as bytes (msgpack bin, bytearray, memoryview) is held to the '
+             'string constraints after it is decoded: the early '
+             'validate_string only sees str values')
+    h = prog.cls('spyne.protocol.dictdoc.hier:HierDictDocument')
+    f = h.methods.get('_from_dict_value')
+    if f is None:
+        raise AnalysisError('HierDictDocument._from_dict_value', 'not found')
+    vs = [c for c in calls_in(f.node) if call_name(c) == 'validate_string'
+          and len(c.args) >= 2]
+    res.floor('R21', 'validate_string calls in _from_dict_value', len(vs), 1)
+    early_str_only = False
+    late = False
+    for c in vs:
+        atoms = guardspec.atoms_at(c, f.node)
+        arg = unparse(c.args[1])
+        if any('string_types' in t and pol for t, pol in atoms) and \
+                arg in f.params():
+            early_str_only = True       # validates the raw value if str
+        if arg not in f.params() and any(
+                'Unicode' in t and pol for t, pol in atoms):
+            late = True                 # validates the decoded text
+    ok = late or not early_str_only
+    res.ob('R21', f.where, '_from_dict_value validates raw str values only: '
+           '%s; validates decoded text of a Unicode member: %s' % (
+               early_str_only, late), 'ok' if ok else 'VIOLATED')
+    if not ok:
+        res.finding('R21', 'HierDictDocument._from_dict_value|bytes-text-'
+                    'unvalidated', f.where, 'validate_string runs only for '
+                    'values that are already str; a msgpack bin value for '
+                    'Unicode(max_len=3) is decoded afterwards and never held '
+                    'to max_len/pattern/values: b"abcdef" is delivered')
+
+
 def run(prog, res, tier):
     res.run_rule(rule_r1, prog, res)
     res.run_rule(rule_r2, prog, res)
@@ -1624,6 +1659,7 @@ def run(prog, res, tier):
     res.run_rule(rule_r18, prog, res)
     res.run_rule(rule_r19, prog, res)
     res.run_rule(rule_r20, prog, res)
+    res.run_rule(rule_r21, prog, res)
 
 
 _X = 'spyne/protocol/xml.py'
@@ -1637,6 +1673,14 @@ _I = 'spyne/protocol/_inbase.py'
 _SI = 'spyne/protocol/dictdoc/simple.py'
 
 MUTANTS = [
+    Mutant('decoded-bytes-text-unvalidated', 'R21', 'fire', _H,
+           in_func('HierDictDocument._from_dict_value',
+                   "                                and not cls.validate_string"
+                   "(cls, retval)):\n                        raise "
+                   "ValidationError([key, retval])\n",
+                   "                                and False):\n"
+                   "                        raise ValidationError([key, retval"
+                   "])\n"), 'bytes-text-unvalidated'),
     Mutant('xml-array-items-uncounted', 'R20', 'fire', _X,
            in_func('XmlDocument.array_from_element',
                    "        if self.validator is self.SOFT_VALIDATION:\n",
